@@ -24,7 +24,26 @@ pub struct VField {
     pub validators: Vec<V>,
     /// one `#[validate(...)]` per validator instead of a single attribute
     pub split: bool,
+    /// validators outside the property (custom, regex, must_match, ...) whose arguments mention
+    /// validator keywords; they must not add, remove or move a length/range/email/url constraint
+    pub noise: Vec<String>,
+    /// where the noise goes: "same_first" | "same_last" | "own_attr_first" | "own_attr_last"
+    pub noise_at: String,
 }
+
+pub const NOISE: &[&str] = &[
+    "custom(function = \"check_email_length\")",
+    "custom(function = \"validators::url_or_range\", message = \"length(min = 1) or email\")",
+    "regex(path = *URL_RE)",
+    "regex(path = *EMAIL_RE, message = \"min = 3, max = 5\")",
+    "required",
+    "nested",
+    "must_match(other = \"email\")",
+    "contains(pattern = \"range(min = 7)\")",
+    "does_not_contain(pattern = \"url\", message = \"no url please\")",
+    "non_control_character",
+];
+pub const NOISE_AT: &[&str] = &["same_first", "same_last", "own_attr_first", "own_attr_last"];
 
 pub const LEN_NUMS: &[&str] = &["0", "1", "5", "255", "65536", "18446744073709551615", "1_000", "100"];
 pub const RANGE_NUMS: &[&str] = &[
@@ -159,15 +178,28 @@ pub fn render_struct(fields: &[VField]) -> String {
     let mut s = String::from(PRELUDE);
     s.push_str("use validator::Validate;\n\n#[derive(Debug, Clone, Serialize, Deserialize, Validate)]\npub struct Form {\n");
     for f in fields {
-        if !f.validators.is_empty() {
+        let mut parts: Vec<String> = f.validators.iter().map(|v| v.render()).collect();
+        let noise = f.noise.join(", ");
+        if !f.noise.is_empty() && f.noise_at == "own_attr_first" {
+            s.push_str(&format!("    #[validate({})]\n    #[serde(default)]\n", noise));
+        }
+        if !f.noise.is_empty() && f.noise_at == "same_first" {
+            parts.insert(0, noise.clone());
+        }
+        if !f.noise.is_empty() && f.noise_at == "same_last" {
+            parts.push(noise.clone());
+        }
+        if !parts.is_empty() {
             if f.split {
-                for v in &f.validators {
-                    s.push_str(&format!("    #[validate({})]\n", v.render()));
+                for v in &parts {
+                    s.push_str(&format!("    #[validate({})]\n", v));
                 }
             } else {
-                let parts: Vec<String> = f.validators.iter().map(|v| v.render()).collect();
                 s.push_str(&format!("    #[validate({})]\n", parts.join(", ")));
             }
+        }
+        if !f.noise.is_empty() && f.noise_at == "own_attr_last" {
+            s.push_str(&format!("    /// validated elsewhere: email, url, length(min = 2)\n    #[validate({})]\n", noise));
         }
         s.push_str(&format!("    pub {}: {},\n", f.name, f.ty));
     }
@@ -222,6 +254,12 @@ fn field_tags(f: &VField) -> Vec<String> {
             }
         }
     }
+    if !f.noise.is_empty() {
+        t.push(format!("noise_at={}", f.noise_at));
+        for n in &f.noise {
+            t.push(format!("noise={}", n.split('(').next().unwrap_or(n)));
+        }
+    }
     t.sort();
     t.dedup();
     t
@@ -248,7 +286,7 @@ pub fn check_struct(fields: &[VField], stats: &mut Stats) -> Vec<Failure> {
             stats.nontrivial(&format!("{:?}", f));
         }
         for t in field_tags(f) {
-            if t.starts_with("has=") || t.starts_with("msg=") || t.starts_with("num=") {
+            if t.starts_with("has=") || t.starts_with("msg=") || t.starts_with("num=") || t.starts_with("noise") {
                 stats.label(&t);
             }
         }
@@ -320,6 +358,11 @@ pub fn check_struct(fields: &[VField], stats: &mut Stats) -> Vec<Failure> {
             }
         }
         for c in observed {
+            // what a validator outside the property turns into is not specified; only the four
+            // constraint families of the property are policed
+            if !f.noise.is_empty() && !matches!(c.name.as_str(), "min" | "max" | "email" | "url" | "length" | "nonempty") {
+                continue;
+            }
             let kind = if f.validators.is_empty() { "constraint_on_unvalidated_field" } else { "undeclared_constraint" };
             fails.push(mk(kind, vec![format!("check={}", c.name)], format!("{:?}", c), "only the declared constraints".into()));
         }
@@ -394,7 +437,19 @@ pub fn random_field(t: &mut Tape, idx: usize) -> VField {
         }
     }
     let split = t.bool();
-    VField { name, ty, validators, split }
+    let mut noise = vec![];
+    let mut noise_at = String::new();
+    if t.chance(1, 4) {
+        let n = t.range(1, 2);
+        for _ in 0..n {
+            let x = t.choose(NOISE).to_string();
+            if !noise.contains(&x) {
+                noise.push(x);
+            }
+        }
+        noise_at = t.choose(NOISE_AT).to_string();
+    }
+    VField { name, ty, validators, split, noise, noise_at }
 }
 
 pub fn random_struct(t: &mut Tape) -> Vec<VField> {
@@ -405,7 +460,7 @@ pub fn random_struct(t: &mut Tape) -> Vec<VField> {
 /// systematic part: every (validator, number) and (validator, message) pair once, alone in its struct
 pub fn grid() -> Vec<Vec<VField>> {
     let mut out = vec![];
-    let plain = |name: &str| VField { name: name.into(), ty: "String".into(), validators: vec![], split: false };
+    let plain = |name: &str| VField { name: name.into(), ty: "String".into(), validators: vec![], split: false, noise: vec![], noise_at: String::new() };
     for n in RANGE_NUMS {
         for which in 0..3 {
             let (min, max) = match which {
@@ -413,26 +468,34 @@ pub fn grid() -> Vec<Vec<VField>> {
                 1 => (None, Some(n.to_string())),
                 _ => (Some(n.to_string()), Some("1e309".replace("1e309", "1e300"))),
             };
-            out.push(vec![VField { name: "score".into(), ty: "f64".into(), validators: vec![V::Range { min, max, message: None }], split: false }, plain("other")]);
+            out.push(vec![VField { name: "score".into(), ty: "f64".into(), validators: vec![V::Range { min, max, message: None }], split: false, noise: vec![], noise_at: String::new() }, plain("other")]);
         }
     }
     for n in LEN_NUMS {
-        out.push(vec![VField { name: "name".into(), ty: "String".into(), validators: vec![V::Length { min: Some(n.to_string()), max: None, message: None }], split: false }, plain("other")]);
-        out.push(vec![VField { name: "items".into(), ty: "Vec<String>".into(), validators: vec![V::Length { min: None, max: Some(n.to_string()), message: None }], split: false }, plain("other")]);
+        out.push(vec![VField { name: "name".into(), ty: "String".into(), validators: vec![V::Length { min: Some(n.to_string()), max: None, message: None }], split: false, noise: vec![], noise_at: String::new() }, plain("other")]);
+        out.push(vec![VField { name: "items".into(), ty: "Vec<String>".into(), validators: vec![V::Length { min: None, max: Some(n.to_string()), message: None }], split: false, noise: vec![], noise_at: String::new() }, plain("other")]);
     }
     for m in MESSAGES {
-        out.push(vec![VField { name: "name".into(), ty: "String".into(), validators: vec![V::Length { min: Some("1".into()), max: Some("9".into()), message: Some(m.to_string()) }], split: false }, plain("other")]);
-        out.push(vec![VField { name: "age".into(), ty: "Option<i32>".into(), validators: vec![V::Range { min: Some("1".into()), max: None, message: Some(m.to_string()) }], split: false }, plain("other")]);
-        out.push(vec![VField { name: "mail".into(), ty: "String".into(), validators: vec![V::Email { message: None }, V::Length { min: None, max: Some("9".into()), message: Some(m.to_string()) }], split: true }, plain("other")]);
+        out.push(vec![VField { name: "name".into(), ty: "String".into(), validators: vec![V::Length { min: Some("1".into()), max: Some("9".into()), message: Some(m.to_string()) }], split: false, noise: vec![], noise_at: String::new() }, plain("other")]);
+        out.push(vec![VField { name: "age".into(), ty: "Option<i32>".into(), validators: vec![V::Range { min: Some("1".into()), max: None, message: Some(m.to_string()) }], split: false, noise: vec![], noise_at: String::new() }, plain("other")]);
+        out.push(vec![VField { name: "mail".into(), ty: "String".into(), validators: vec![V::Email { message: None }, V::Length { min: None, max: Some("9".into()), message: Some(m.to_string()) }], split: true, noise: vec![], noise_at: String::new() }, plain("other")]);
     }
-    out.push(vec![VField { name: "mail".into(), ty: "String".into(), validators: vec![V::Email { message: None }], split: false }, plain("other")]);
-    out.push(vec![VField { name: "site".into(), ty: "Option<String>".into(), validators: vec![V::Url { message: None }], split: false }, plain("other")]);
-    out.push(vec![VField { name: "mail".into(), ty: "String".into(), validators: vec![V::Email { message: Some("bad".into()) }], split: false }, plain("other")]);
+    out.push(vec![VField { name: "mail".into(), ty: "String".into(), validators: vec![V::Email { message: None }], split: false, noise: vec![], noise_at: String::new() }, plain("other")]);
+    out.push(vec![VField { name: "site".into(), ty: "Option<String>".into(), validators: vec![V::Url { message: None }], split: false, noise: vec![], noise_at: String::new() }, plain("other")]);
+    out.push(vec![VField { name: "mail".into(), ty: "String".into(), validators: vec![V::Email { message: Some("bad".into()) }], split: false, noise: vec![], noise_at: String::new() }, plain("other")]);
+    // validators outside the property, alone on a field and beside a declared length, at every position
+    for (k, n) in NOISE.iter().enumerate() {
+        for (a, at) in NOISE_AT.iter().enumerate() {
+            let noisy = |name: &str, ty: &str, validators: Vec<V>| VField { name: name.into(), ty: ty.into(), validators, split: (k + a) % 2 == 0, noise: vec![n.to_string()], noise_at: at.to_string() };
+            out.push(vec![noisy("note", "String", vec![]), plain("other")]);
+            out.push(vec![noisy("name", "String", vec![V::Length { min: Some("2".into()), max: Some("40".into()), message: Some("2 to 40".into()) }]), noisy("age", "i32", vec![V::Range { min: Some("-5".into()), max: None, message: None }])]);
+        }
+    }
     out
 }
 
 pub fn run(ctx: &Ctx) {
-    ctx.set_rule("structs of 1-4 fields (String, Option<String>, numeric, Option<numeric>, Vec<String>; some without validators) carrying length/range/email/url with min/max from pools covering 0, small, negative, decimal, exponent, u64::MAX, 2^53+1, 1e308 and messages from a pool of 24 adversarial strings or random Unicode strings; a systematic grid of every (validator, number) and (validator, message) pair plus proptest-generated structs; evaluation = one field; non-trivial = a validator with a number outside 0..100 or a message outside [A-Za-z ]*, distinct by field model");
+    ctx.set_rule("structs of 1-4 fields (String, Option<String>, numeric, Option<numeric>, Vec<String>; some without validators) carrying length/range/email/url with min/max from pools covering 0, small, negative, decimal, exponent, u64::MAX, 2^53+1, 1e308 and messages from a pool of 24 adversarial strings or random Unicode strings; a systematic grid of every (validator, number) and (validator, message) pair; validators outside the property (custom, regex, required, nested, must_match, contains, does_not_contain, non_control_character, with keyword-laden arguments) placed before/after the declared ones in the same or in their own attribute (grid: 10 x 4 positions, alone and beside declared validators; random: 1 field in 4); plus proptest-generated structs; evaluation = one field; non-trivial = a validator with a number outside 0..100 or a message outside [A-Za-z ]*, distinct by field model");
     ctx.set_exhaustive(false);
     ctx.assume("declared numbers are read with Rust's f64 parser, declared messages are read back from the rendered literal with syn::LitStr::value()");
     ctx.assume("the Zod model of the harness decodes method chains (.min/.max/.email/.url, {message})");
